@@ -1569,6 +1569,14 @@ class DynamicBase(BaseSpaceImpl):
             baseref = self.own_refs[name]
             dynsub._dynbase_refs.set_item(name, baseref)
 
+    def set_formula(self, formula):
+        self.clear_subs_rootitems()
+        ItemSpaceParent.set_formula(self, formula)
+
+    def del_formula(self):
+        self.clear_subs_rootitems()
+        ItemSpaceParent.del_formula(self)
+
     def clear_subs_rootitems(self):
         for dynsub in self._dynamic_subs.copy():
             root = dynsub.rootspace
@@ -1609,6 +1617,7 @@ class UserSpaceImpl(*_user_space_impl_base):
         source=None,
         doc=None
     ):
+        DynamicBase.__init__(self)
         BaseSpaceImpl.__init__(
             self,
             parent=parent,
@@ -1618,7 +1627,6 @@ class UserSpaceImpl(*_user_space_impl_base):
             refs=refs,
             doc=doc
         )
-        DynamicBase.__init__(self)
         EditableParentImpl.__init__(self)
 
         self.cellsnamer = AutoNamer("Cells")
